@@ -22,7 +22,7 @@ import EPV.Tactics
 
 set_option linter.all false
 
-open EPV EPV.Gen EPV.Spec
+open EPV EPV.Gen EPV.Spec Filter Topology
 
 namespace EPV.C01
 
@@ -79,5 +79,47 @@ example : ∃ (p : Cog3.P) (r : ℝ), 0 < r ∧ p.v ≠ 0 ∧ p.Gamma ≠ 0 ∧ 
   ⟨{ Gamma := 40, a_rad := 0, alpha_ := 0, b := 6/5, beta_ := 0, c_light := 0, geometry := 3,
      lam0_ := 0, rho0 := 9/5, v := 1/2 }, 1, by norm_num, by norm_num, by norm_num, by norm_num, by norm_num,
     by norm_num⟩
+
+/-! ### The returned fields (tree level)
+
+The traced decision tree has a single leaf: the returned fields *are* those of leaf 0. -/
+
+
+theorem cog3_tree (p : Cog3.P) (r t : ℝ) :
+    AgreeAt (Cog3.density p) (Cog3.L0.density p) r t
+      ∧ AgreeAt (Cog3.velocity p) (Cog3.L0.velocity p) r t
+      ∧ AgreeAt (Cog3.temperature p) (Cog3.L0.temperature p) r t := by
+  have e : ∀ x s, Cog3.density p x s = Cog3.L0.density p x s
+      ∧ Cog3.velocity p x s = Cog3.L0.velocity p x s
+      ∧ Cog3.temperature p x s = Cog3.L0.temperature p x s := by
+    intro x s
+    exact ⟨rfl, rfl, rfl⟩
+  exact ⟨⟨fun x => (e x t).1, Filter.Eventually.of_forall fun s => (e r s).1⟩,
+    ⟨fun x => (e x t).2.1, Filter.Eventually.of_forall fun s => (e r s).2.1⟩,
+    ⟨fun x => (e x t).2.2, Filter.Eventually.of_forall fun s => (e r s).2.2⟩⟩
+
+/-- mass balance of the returned (tree-level) fields -/
+theorem cog3_mass_tree (p : Cog3.P) (r t : ℝ) (hr : 0 < r) (hv : p.v ≠ 0) :
+    massRes (Cog3.density p) (Cog3.velocity p) (p.geometry - 1) r t = 0 := by
+  obtain ⟨hρ', hu', hT'⟩ := cog3_tree p r t
+  rw [massRes_congr hρ' hu']
+  exact cog3_mass p r t hr hv
+
+/-- momentum balance of the returned (tree-level) fields -/
+theorem cog3_momentum_tree (p : Cog3.P) (r t : ℝ) (hr : 0 < r) (hv : p.v ≠ 0) (hΓ : p.Gamma ≠ 0)
+    (hc : (p.geometry - 1) - p.v - 1 ≠ 0) (hρ : p.rho0 ≠ 0) :
+    momResT (Cog3.density p) (Cog3.velocity p) (Cog3.temperature p) p.Gamma r t = 0 := by
+  obtain ⟨hρ', hu', hT'⟩ := cog3_tree p r t
+  rw [momResT_congr hρ' hu' hT']
+  exact cog3_momentum p r t hr hv hΓ hc hρ
+
+/-- energy balance of the returned (tree-level) fields -/
+theorem cog3_energy_tree (p : Cog3.P) (r t : ℝ) (hr : 0 < r) (hv : p.v ≠ 0) (hΓ : p.Gamma ≠ 0)
+    (hc : (p.geometry - 1) - p.v - 1 ≠ 0) (hk : (p.geometry - 1) + 1 ≠ 0) (c a α β : ℝ) :
+    energyResT (Cog3.density p) (Cog3.velocity p) (Cog3.temperature p) p.Gamma (((p.geometry - 1) - 1) / ((p.geometry - 1) + 1))
+      (p.geometry - 1) c a 0 α β r t = 0 := by
+  obtain ⟨hρ', hu', hT'⟩ := cog3_tree p r t
+  rw [energyResT_congr hρ' hu' hT']
+  exact cog3_energy p r t hr hv hΓ hc hk c a α β
 
 end EPV.C01
